@@ -1,8 +1,9 @@
 CFG = {
     "extra_theorems": ["Xeh.LeafBridge.cutBits_matches_source", "Xeh.LeafBridge.bitMask_matches_source", "Xeh.LeafBridge.upperBoundIndex_matches_source", "Xeh.LeafBridge.data_words_match"],
-    "extra_modules": ["XehModel.Proofs.LeafBridge"],
+    "extra_modules": ["XehModel.Proofs.Leaf.Bits", "XehModel.Proofs.Tables.Data"],
     "n_quick": 20000, "n_thorough": 400000,
-    "rule": "every width 1..128 x both byte orders x {0, 1, -1, 2^w-1, max/min signed, 2^(w-1), single-bit values, random i128 (values wider than the field included)}: Bitstr::from_int then to_uint/to_int with the field embedded at each of the 8 bit offsets of a larger buffer with random or all-ones surroundings (oracle: all 8 offsets; correspondence lines: all 8 offsets for the first values of each cell, 2 random offsets for the rest; thorough: all offsets, every single-bit value, 40 random values per cell); the language words uN/iN/int/uint and their ! packers (generic and fixed-width, default and explicit order) through eval for every width x order x signedness; widths 0 and 129..300 for model faithfulness only; f32/f64 bit patterns incl. signalling/quiet NaN payloads, infinities, subnormals through Bitstr::from_fNN/to_fNN (bit-exact) and through fN!/fN/float!/float (NaNs compared as a class there). distinct = distinct request lines",
+    "rule": "every width 1..128 x both byte orders x {0, 1, -1, 2^w-1, max/min signed, 2^(w-1), single-bit values, random i128 (values wider than the field included)}: Bitstr::from_int then to_uint/to_int with the field embedded at each of the 8 bit offsets of a larger buffer with random or all-ones surroundings (oracle: all 8 offsets; correspondence lines: all 8 offsets for the first values of each cell, 2 random offsets for the rest; thorough: all offsets, every single-bit value, 40 random values per cell); the language words uN/iN/int/uint and their ! packers (generic and fixed-width, default and explicit order) through eval for every width x order x signedness; widths 0 and 129..300 for model faithfulness only; f32/f64 bit patterns incl. signalling/quiet NaN payloads, infinities, subnormals through Bitstr::from_fNN/to_fNN (bit-exact) and through fN!/fN/float!/float (NaNs compared as a class there). distinct = distinct request lines"
+        " Added after the sixth campaign: the words that name their byte order (u16le! … i64be, f32le! …) under both selected orders, packing under one and reading under the other.",
     "trusted_base_extra": [
         "f32<->f64 conversion inside the words f32!/f32 is Model/SoftFloat.lean's correctly-rounded re-encoding, validated against the hardware by the correspondence, not proved against an IEEE formalisation; signalling-NaN quieting by `as` is not modelled (NaNs compared as a class on the word path only)",
         "the word layer of Driver/C05.lean (which word means which width/order/signedness, the 127/128-bit range checks of read_unsigned/read_signed) is hand-written and validated by correspondence only",
